@@ -387,7 +387,15 @@ where
         // Wait for received data within window
         self.timer.reset();
         match self.rx_downlink(&Frame::Data, ms, &rx_windows).await {
-            Ok(response) => Ok(response.into()),
+            Ok(response) => {
+                // A multicast frame heard in RX1 or RX2 ends the receive procedure without going
+                // through the unicast session: the frame counter of the uplink is consumed here.
+                #[cfg(feature = "multicast")]
+                if let mac::Response::Multicast(_) = response {
+                    self.mac.uplink_aborted(fcnt_up);
+                }
+                Ok(response.into())
+            }
             Err(e) => {
                 // The frame has been transmitted: its frame counter must never be used
                 // again, even though the receive procedure did not run to completion.
